@@ -222,7 +222,174 @@ def d_holds(d, op, l, r):
             return True
         if f.key[0] == r and f.key[2] == lkey and _op_implies(FLIP[f.op], op):
             return True
+    if lkey == r:
+        return op in ("==", "<=", ">=")
+    # through constant bounds of both sides
+    llo, lhi, _ = d_bounds(d, lkey)
+    rlo, rhi, _ = d_bounds(d, r)
+    if op in ("<=", "<") and lhi is not None and rlo is not None:
+        return lhi <= rlo if op == "<=" else lhi < rlo
+    if op in (">=", ">") and llo is not None and rhi is not None:
+        return llo >= rhi if op == ">=" else llo > rhi
     return False
+
+
+def d_equiv(d):
+    """Union-find style map var key -> representative through `x == y` facts
+    between plain terms."""
+    rep = {}
+
+    def find(k):
+        while rep.get(k, k) != k:
+            k = rep[k]
+        return k
+    for f in d:
+        if f.kind == "cmp" and f.op == "==" and isinstance(f.key[2], str):
+            l, r = sk(f.l), sk(f.r)
+            if l.get("k") in ("Ref", "Mem", "Sub") and r.get("k") in ("Ref", "Mem", "Sub"):
+                a, b = find(f.key[0]), find(f.key[2])
+                if a != b:
+                    rep[max(a, b)] = min(a, b)
+    return find
+
+
+def d_nonneg(d, form, depth=0):
+    """Is the linear form (atoms dict, const) >= 0 in disjunct d?"""
+    from . import lin as _lin
+    atoms, c = form
+    if not atoms:
+        return c >= 0
+    find = d_equiv(d)
+    at = {}
+    for k, v in atoms.items():
+        kk = find(k)
+        at[kk] = at.get(kk, 0) + v
+    at = {k: v for k, v in at.items() if v}
+    if not at:
+        return c >= 0
+    items = sorted(at.items())
+    if len(items) == 1:
+        k, v = items[0]
+        if v == 1 and d_holds(d, ">=", k, -c):
+            return True
+        if v == -1 and d_holds(d, "<=", k, c):
+            return True
+        for kk in atoms:
+            if find(kk) == k and kk != k:
+                if v == 1 and d_holds(d, ">=", kk, -c):
+                    return True
+                if v == -1 and d_holds(d, "<=", kk, c):
+                    return True
+    if len(items) == 2 and {items[0][1], items[1][1]} == {1, -1} and c >= 0:
+        pos = items[0][0] if items[0][1] == 1 else items[1][0]
+        neg = items[1][0] if items[0][1] == 1 else items[0][0]
+        cands_p = [k for k in atoms if find(k) == pos] + [pos]
+        cands_n = [k for k in atoms if find(k) == neg] + [neg]
+        for a in cands_p:
+            for b in cands_n:
+                if d_holds(d, "<=", b, a):
+                    return True
+    # constant bounds: positive atoms by their lower bound, negative by upper
+    tot = c
+    okb = True
+    for k, v in items:
+        lo, hi, _ = d_bounds(d, k)
+        if v > 0:
+            if lo is None:
+                okb = False
+                break
+            tot += v * lo
+        else:
+            if hi is None:
+                okb = False
+                break
+            tot += v * hi
+    if okb and tot >= 0:
+        return True
+    if depth >= 3:
+        return False
+    # subtract a known non-negative form that shares atoms with the goal
+    if depth <= 1:
+        keys = set(at)
+        for f in d:
+            if f.kind != "cmp" or isinstance(f.key[2], int) or f.op in ("==", "!="):
+                continue
+            a, b = _lin.lin(f.l), _lin.lin(f.r)
+            if a is None or b is None:
+                continue
+            g = _lin.sub(a, b)
+            if f.op in ("<=", "<"):
+                g = ({k: -v for k, v in g[0].items()}, -g[1])
+            if f.op in ("<", ">"):
+                g = (g[0], g[1] - 1)
+            ga = {}
+            for k, v in g[0].items():
+                kk = find(k)
+                ga[kk] = ga.get(kk, 0) + v
+            ga = {k: v for k, v in ga.items() if v}
+            if not (set(ga) & keys):
+                continue
+            rest = _lin.sub((at, c), (ga, g[1]))
+            if len(rest[0]) < len(at) + 1 and d_nonneg(d, rest, depth + 2):
+                return True
+    # x with negative coefficient defined as MIN(A, B): x <= A and x <= B
+    for k, v in items:
+        if v != -1:
+            continue
+        for f in d:
+            if f.kind == "cmp" and f.op == "==" and find(f.key[0]) == k:
+                r = sk(f.r)
+                arms = _min_arms(r)
+                for arm in arms:
+                    fa = _lin.lin(arm)
+                    if fa is None:
+                        continue
+                    rest = dict(at)
+                    del rest[k]
+                    g = _lin.sub((rest, c), fa)
+                    if d_nonneg(d, g, depth + 1):
+                        return True
+                if not arms and r.get("k") not in ("Call", "Cond"):
+                    # plain definition x == E: substitute
+                    fa = _lin.lin(r)
+                    if fa is not None and fa[0] != {f.key[0]: 1}:
+                        rest = dict(at)
+                        del rest[k]
+                        g = _lin.sub((rest, c), fa)
+                        if d_nonneg(d, g, depth + 1):
+                            return True
+    # x with positive coefficient defined as a plain expression
+    for k, v in items:
+        if v != 1:
+            continue
+        for f in d:
+            if f.kind == "cmp" and f.op == "==" and find(f.key[0]) == k:
+                r = sk(f.r)
+                if r.get("k") in ("Call", "Cond"):
+                    continue
+                fa = _lin.lin(r)
+                if fa is not None and fa[0] != {f.key[0]: 1} and fa[0]:
+                    rest = dict(at)
+                    del rest[k]
+                    g = _lin.add((rest, c), fa)
+                    if d_nonneg(d, g, depth + 1):
+                        return True
+    return False
+
+
+def _min_arms(r):
+    """Arms of a MIN written as a conditional expression: (a < b ? a : b)."""
+    if r.get("k") != "Cond":
+        return []
+    c = sk(r["a"][0])
+    t, e_ = sk(r["a"][1]), sk(r["a"][2])
+    if c.get("k") == "Bin" and c["op"] in ("<", "<=", ">", ">="):
+        a, b = pp(sk(c["a"][0])), pp(sk(c["a"][1]))
+        tk, ek = pp(t), pp(e_)
+        if {a, b} == {tk, ek}:
+            if (c["op"] in ("<", "<=") and tk == a) or (c["op"] in (">", ">=") and tk == b):
+                return [t, e_]
+    return []
 
 
 def iter_cmp(d, hist=False):
@@ -552,10 +719,27 @@ class Analysis:
                         new.add(imp)
                 elif is_pure(rv) and lp[0][2] not in _rvars(rv) and rv.get("k") not in ("InitList", "Str"):
                     new.add(Fact("==", lhs, rv))
+                elif is_pure(rv) and rv.get("k") == "Cond":
+                    # x = MIN(x, E): afterwards x <= E
+                    for arm in _min_arms(rv):
+                        if lp[0][2] not in _rvars(arm) and not (Fact("<=", lhs, arm).vars & lvars - {lp[0][2]}):
+                            new.add(Fact("<=", lhs, arm))
         return frozenset(new)
 
     def apply_edge(self, d, facts):
         new = set(d)
+        extra = []
+        for f in facts:
+            if f.kind == "cmp" and isinstance(f.key[2], int):
+                for g in d:
+                    if g.kind == "cmp" and g.op == "==" and isinstance(g.key[2], str):
+                        gl, gr = sk(g.l), sk(g.r)
+                        if gr.get("k") in ("Ref", "Mem") and gl.get("k") in ("Ref", "Mem"):
+                            if g.key[0] == f.key[0]:
+                                extra.append(Fact(f.op, g.r, f.r))
+                            elif g.key[2] == f.key[0]:
+                                extra.append(Fact(f.op, g.l, f.r))
+        facts = list(facts) + extra
         for f in facts:
             new.add(f)
             if self.E.hist_roots and f.kind == "cmp" and any(m[0][1] in self.E.hist_roots for m, _ in f.paths):
